@@ -156,6 +156,19 @@ def crystal_check(ctx):
         transitions += area_res["tlc"]["generated"]
         emitted += area_res["checked"]
         nontrivial += area_res["checked"]
+    edges = None
+    if pid == "C15":
+        # floating-point edge inputs off every grid (one ulp either side of +-1/2, -0.0, 1e-17,
+        # coordinates beyond the cell): the postcondition of Placements evaluated in floating point
+        d = os.path.join(vp.WORK, "C15_edges")
+        os.makedirs(d, exist_ok=True)
+        vp.pvh(["site-edges", "--out", os.path.join(d, "edges.json")])
+        er = json.load(open(os.path.join(d, "edges.json")))
+        for f in er["first_failures"]:
+            failures.append(("float-edge site: " + f["what"], f["state"]))
+        edges = {"float_edge_sites_checked": er["checked"]}
+        emitted += er["checked"]
+        nontrivial += er["checked"]
     c04 = None
     if pid == "C04":
         import opt_checks
@@ -191,6 +204,8 @@ def crystal_check(ctx):
                          "C04": "asserted_on = every state: real cartesian placements (hard and LJ) equal the model crystal, which TLC shows symmetric (invariant Symmetric)",
                          "C15": "asserted_on = every state: real relative placements (hard and LJ) equal the copies of the site, inside [-1/2,1/2)^2"}[pid],
                 "critical_states": crit, "enumerations": runs, "exhaustive": True}
+    if edges:
+        coverage["float_edges"] = edges
     if c04:
         coverage["optimised"] = c04
     if area_res:
